@@ -144,6 +144,7 @@ func (db *DB) newMemTable() (*memTable, error) {
 		if err := db.syncDir(db.opt.Dir); err != nil {
 			return nil, y.Wrapf(err, "newMemTable")
 		}
+		vevent(10, db.opt.Dir, 0, 0) // verif: syncdir
 		return mt, nil
 	}
 
